@@ -305,6 +305,49 @@ def index_record(ver, height, status, ntx, nfile, datapos, undopos, hdr):
     return b + hdr
 
 
+_lookalikes = None
+
+
+def lookalike_payloads():
+    global _lookalikes
+    if _lookalikes is None:
+        _lookalikes = _find_lookalikes()
+    return _lookalikes
+
+
+def _find_lookalikes():
+    """payloads whose Base58Check form under some version byte BEGINS like an address of another kind ('bc1' / 'tb1' as if it were
+    segwit, with upper-case letters further on; '1' / '3' under a fork coin's version): to a fork coin's template matcher any
+    non-empty push is a hash.  -> [(version, payload)]"""
+    def val(t):
+        n = 0
+        for ch in t:
+            n = n * 58 + _B58.index(ch)
+        return n
+    out = []
+    for version in (5, 0x30, 0x1e, 0x34, 0x32, 0x82, 0x35):
+        for prefix in ('bc1', 'tb1', '1', '3'):
+            for ln in (1, 2, 3, 4, 5, 8, 19, 21):
+                total = 1 + ln + 4
+                for n in range(len(prefix), 40):
+                    lo, hi = val(prefix + '1' * (n - len(prefix))), val(prefix + 'z' * (n - len(prefix)))
+                    a, b = max(lo, version << (8 * (total - 1))), min(hi, ((version + 1) << (8 * (total - 1))) - 1)
+                    if a > b:
+                        continue
+                    pa, pb_ = (a >> 32) & ((1 << (8 * ln)) - 1), (b >> 32) & ((1 << (8 * ln)) - 1)
+                    found = 0
+                    for k in range(400):
+                        cand = pa + 1 + (pb_ - pa) * k // 400 if pb_ > pa else pa + k
+                        pb = (cand % (1 << (8 * ln))).to_bytes(ln, 'big')
+                        addr = b58check(bytes([version]) + pb)
+                        if addr.startswith(prefix) and (len(prefix) == 1 or any(c.isupper() for c in addr)):
+                            out.append((version, pb))
+                            found += 1
+                            if found == 2:
+                                break
+    return out
+
+
 # ---- secp256k1 (only to obtain real curve points; nothing here is used as an oracle for the parser) -------------------
 _P = 2 ** 256 - 2 ** 32 - 977
 _G = (0x79BE667EF9DCBBAC55A06295CE870B07029BFCDB2DCE28D959F2815B16F81798, 0x483ADA7726A3C4655DA4FBFC0E1108A8FD17B448A68554199C47D08FFB10D4B8)
